@@ -1224,6 +1224,38 @@ func diffGen(g *G, tier string) []M {
 			ops = append(ops, M{"op": "diff", "n": base, "m": other})
 			continue
 		}
+		if g.Chance(0.06) {
+			// collections that are there and empty against collections that are absent: no attribute
+			// differs; with one text attribute changed as well, exactly one does
+			other = Normalize(base).(M)
+			for _, x := range []M{base, other} {
+				if _, ok := x["a"].(M); !ok {
+					x["a"] = M{}
+				}
+			}
+			ba, oa := base["a"].(M), other["a"].(M)
+			for _, f := range NodeAttrs {
+				switch f.Kind {
+				case "imap", "strs", "enums", "persons", "refs":
+					switch g.Int(4) {
+					case 0:
+						delete(ba, f.GoName)
+						oa[f.GoName] = []any{}
+					case 1:
+						delete(oa, f.GoName)
+						ba[f.GoName] = []any{}
+					case 2:
+						ba[f.GoName], oa[f.GoName] = []any{}, []any{}
+					}
+				}
+			}
+			if g.Chance(0.5) {
+				fld := g.Pick([]string{"Name", "Version", "Comment"})
+				oa[fld] = asStr(oa[fld]) + "x"
+			}
+			ops = append(ops, M{"op": "diff", "n": base, "m": other})
+			continue
+		}
 		switch g.Int(8) {
 		case 7:
 			// a supplier / originator (or one of its contacts) that differs from its twin in white
